@@ -321,16 +321,25 @@ class Simulator(Computer, _mixins.CodeMixin):
             if not is_instruction_resolved:
                 instruction._resolve_params(outcomes=branch.outcome)
 
-            if self.config.validate:
-                instruction._validate(self._connector)
+            try:
+                if self.config.validate:
+                    instruction._validate(self._connector)
 
-            current_shots = int(branch.frequency * shots) if shots is not None else None
+                current_shots = (
+                    int(branch.frequency * shots) if shots is not None else None
+                )
 
-            subbranches = simulation_step(
-                branch.state,
-                instruction,
-                shots=current_shots,
-            )
+                subbranches = simulation_step(
+                    branch.state,
+                    instruction,
+                    shots=current_shots,
+                )
+            except Exception:
+                # NOTE: The unresolved parameters are restored even if an error occurs.
+                if not is_instruction_resolved:
+                    instruction._unresolve_params()
+
+                raise
 
             for subbranch in subbranches:
                 # NOTE: This updates the branches with the previous outcome, and the
@@ -365,16 +374,23 @@ class Simulator(Computer, _mixins.CodeMixin):
                     f"{inactive_modes}."
                 )
 
-            instruction.modes = Simulator._remap_modes(active_modes, instruction.modes)
-
-            branches = self._apply_instruction_to_branches(branches, instruction, shots)
-
-            if isinstance(instruction, Measurement):
-                active_modes = Simulator._delete_modes_from_active(
+            try:
+                instruction.modes = Simulator._remap_modes(
                     active_modes, instruction.modes
                 )
 
-            instruction._modes = original_modes
+                branches = self._apply_instruction_to_branches(
+                    branches, instruction, shots
+                )
+
+                if isinstance(instruction, Measurement):
+                    active_modes = Simulator._delete_modes_from_active(
+                        active_modes, instruction.modes
+                    )
+            finally:
+                # NOTE: The modes of the instruction are restored even if an error
+                # occurs, so that the user-specified program remains unchanged.
+                instruction._modes = original_modes
 
         return Result(config=self.config, branches=branches, shots=shots)
 
